@@ -371,10 +371,11 @@ impl BoxClient {
                 }
                 None => ok2(Ok(Ret::Unit), Ok(Ret::Unit)),
             },
-            BOp::VecToBox { n, tag0 } => {
+            BOp::VecToBox { n, tag0, spare } => {
                 let ids: Vec<u32> = (0..*n).map(|_| track::fresh_id()).collect();
                 let rb = b_call(|| {
-                    let v = BVec::from_iter_in(TagIter::<T0>::new(&ids, *tag0, HintKind::Exact), bump);
+                    let mut v = if *spare > 0 { BVec::with_capacity_in(*n + *spare, bump) } else { BVec::new_in(bump) };
+                    v.extend(TagIter::<T0>::new(&ids, *tag0, HintKind::Exact));
                     if *tag0 % 2 == 0 {
                         v.into_boxed_slice()
                     } else {
